@@ -623,3 +623,8 @@ Definition seg_eqb (a b : seg) : bool :=
 Definition tmpl_eqb (a b : tmpl) : bool :=
   list_eqb seg_eqb (t_pre a) (t_pre b) && String.eqb (t_key a) (t_key b) && Bool.eqb (t_short a) (t_short b)
   && list_eqb seg_eqb (t_sub a) (t_sub b) && list_eqb seg_eqb (t_post a) (t_post b).
+
+(* ---- the alternative (Ads) template tree: gapic/ads-templates/.../client.py.j2 expands the same create_metadata
+   macro (its own copy in the Ads _shared_macros.j2, kept identical to the standard one) ---- *)
+Definition emit_ads (m : method) : res emitted := emit_metadata m.
+Definition header_of_ads (m : method) (req : request) : res (option string) := header_of m req.
